@@ -7,6 +7,7 @@ package refeval
 import (
 	"bufio"
 	"fmt"
+	"io"
 	"os"
 	"strings"
 	"time"
@@ -77,7 +78,16 @@ func Main(s SQLiFn, x XSSFn) {
 			time.Sleep(40 * time.Millisecond)
 		}
 	case "one":
-		in, err := common.UnB64(os.Args[3])
+		arg := os.Args[3]
+		if arg == "-" {
+			b, err := io.ReadAll(os.Stdin)
+			if err != nil {
+				fmt.Fprintln(os.Stderr, err)
+				os.Exit(2)
+			}
+			arg = strings.TrimSpace(string(b))
+		}
+		in, err := common.UnB64(arg)
 		if err != nil {
 			fmt.Fprintln(os.Stderr, err)
 			os.Exit(2)
